@@ -45,7 +45,8 @@ partial def loop (h : IO.FS.Stream) (out : IO.FS.Stream) : IO Unit := do
   let line ← h.getLine
   if line.isEmpty then return ()
   let l := (line.dropEndWhile (fun c => c == '\n' || c == '\r')).toString
-  out.putStrLn (dispatch l)
+  -- one answer line per case, whatever a handler put into its message
+  out.putStrLn ((dispatch l).map fun c => if c == '\n' || c == '\r' then ' ' else c)
   loop h out
 
 def main : IO Unit := do
